@@ -244,7 +244,7 @@ PROPS = {
               dict(harness='k_number_add_sub', klass='complete', schema=['u8', 'u8', 'f64', 'f64'], family='number-units', target='Number +/-', timeout=600),
               dict(harness='k_convert_offsets', klass='bounded', bound='both scales fixed to 1.0 (the full formula with symbolic scales does not finish: float division)',
                    schema=None, family=None, target='Unit::convert_to formula, offset part', timeout=900)],
-        witness=None,
+        witness='enum:unit-convert',
         design_ref='DESIGN.md section 4, C16',
         level_text=('Proof of the guards and the dimension bookkeeping: Unit::convert_to succeeds exactly when both units have the same '
                     'dimensions or both are byte units (Kani, complete over all dimension vectors); UnitDimensions + and - are the '
